@@ -1,5 +1,6 @@
 import KitModel.Go.Prelude
 import KitModel.Pool
+import KitModel.PoolAdd
 /-!
 Driver for property C20: `kitdrv C20` reads one observable event of a real `context.Pool`
 execution per line and answers `ok n=<states>` when the model (`Kit.Pool`, state-set simulation
@@ -13,6 +14,11 @@ closed under watcher steps) accepts it, `reject …` with the state set it had w
   race e=1 c=5 | race e=1 cancel=1   context 1 ended concurrently with Add(ctx5) / Cancel(); either order
   obs quiet=1 park=0|1|2 pi=<i> done=0|1 size=<n> alive=0|1
                                   park: 0 not parked, 1 at pool.watch.afterWait(pi), 2 at pool.watch.beforeCancel
+  gate c=5                        Add(ctx5) was seen inside ctx5.Done(), its first call-out (gated-context family)
+  obsw quiet=1 done=0|1 alive=0|1 observation while that Add is parked there (Size would block)
+  ungate                          the harness let ctx5.Done() return; Add(ctx5) returned
+Between `gate` and `ungate` only `end` and `obsw` are accepted; the states held there are states of
+the fine system `Kit.Pool.fstep` (Add = check / call-out / append).
 After a `reject` every line up to the next `new` is answered `skip`.
 -/
 namespace Driver.C20
@@ -32,8 +38,15 @@ def showState (s : State) : String :=
 def showSet (xs : List State) : String :=
   if xs.length > 12 then String.join ((xs.take 12).map showState) ++ "…" else String.join (xs.map showState)
 
+def showFSet (xs : List FState) : String :=
+  showSet (xs.map (fun g => g.base))
+
+def showDSim : DSim → String
+  | .plain sim => showSet sim.states
+  | .window xs _ => "window:" ++ showFSet xs
+
 structure DState where
-  sim : Option Sim      -- none: no scenario, or rejected
+  sim : Option DSim      -- none: no scenario, or rejected
   deriving Inhabited
 
 def bool? (l : Line) (k : String) : Option Bool :=
@@ -42,7 +55,7 @@ def bool? (l : Line) (k : String) : Option Bool :=
   | some 1 => some true
   | _ => none
 
-def parseEvent (l : Line) : Option Event :=
+def parseEvent0 (l : Line) : Option Event :=
   match l.op with
   | "end" => (l.nat? "c").map Event.endCtx
   | "add" => (l.nat? "c").map Event.add
@@ -68,13 +81,24 @@ def parseEvent (l : Line) : Option Event :=
     some (Event.obs quiet parked done size alive)
   | _ => none
 
+def parseEvent (l : Line) : Option DEvent :=
+  match l.op with
+  | "gate" => (l.nat? "c").map DEvent.gate
+  | "ungate" => some DEvent.ungate
+  | "obsw" => do
+    let quiet ← bool? l "quiet"
+    let done ← bool? l "done"
+    let alive ← bool? l "alive"
+    some (DEvent.obsw quiet done alive)
+  | _ => (parseEvent0 l).map DEvent.ev
+
 def stepLine (d : DState) (line : String) : DState × String :=
   let l := parseLine line
   if l.op == "new" then
     match l.nats? "ctxs", l.nats? "ended" with
     | some ctxs, some ended =>
       let sim := Sim.start { ctxs := ctxs, ended0 := ended }
-      ({ sim := some sim }, s!"ok n={sim.states.length}")
+      ({ sim := some (.plain sim) }, s!"ok n={sim.states.length}")
     | _, _ => ({ sim := none }, "error bad-new")
   else
     match d.sim with
@@ -83,11 +107,11 @@ def stepLine (d : DState) (line : String) : DState × String :=
       match parseEvent l with
       | none => ({ sim := none }, "error bad-line")
       | some ev =>
-        let sim' := advance sim ev
-        if sim'.states.isEmpty then
-          ({ sim := none }, s!"reject before={showSet sim.states}")
+        let sim' := dadvance sim ev
+        if sim'.size == 0 then
+          ({ sim := none }, s!"reject before={showDSim sim}")
         else
-          ({ sim := some sim' }, s!"ok n={sim'.states.length}")
+          ({ sim := some sim' }, s!"ok n={sim'.size}")
 
 def main (_args : List String) : IO UInt32 := do
   lineLoop stepLine { sim := none }
